@@ -123,6 +123,7 @@ type Run struct {
 	violations  int
 	vioSeen     map[string]bool
 	knownSeen   map[string]int
+	bySig       map[string]int
 	known       []finding
 	flaky       int
 	MaxVio      int // stop recording new replay files after this many (still counted)
@@ -158,6 +159,7 @@ func New(prop, level string) *Run {
 	r.extra = map[string]any{}
 	r.vioSeen = map[string]bool{}
 	r.knownSeen = map[string]int{}
+	r.bySig = map[string]int{}
 	r.loadKnown()
 	return r
 }
@@ -218,6 +220,9 @@ func (r *Run) State(key string) bool { return r.states.Add(key) }
 
 // StateHash is State for a precomputed hash.
 func (r *Run) StateHash(h uint64) bool { return r.states.AddHash(h) }
+
+// OutcomeHash records a distinct observed outcome by hash.
+func (r *Run) OutcomeHash(h uint64) { r.outcomes.AddHash(h) }
 
 // Outcome records a distinct observed outcome.
 func (r *Run) Outcome(key string) { r.outcomes.Add(key) }
@@ -287,6 +292,7 @@ func (r *Run) Violation(sig string, detail any) bool {
 		}
 	}
 	r.violations++
+	r.bySig[sig]++
 	if r.vioSeen[sig] || len(r.vioSeen) >= r.MaxVio {
 		return true
 	}
@@ -323,18 +329,22 @@ func (r *Run) Flaky(what string) {
 // from inside a Go process, so the process ends.
 type Guard struct {
 	r      *Run
-	t      time.Time
+	t      atomic.Int64
 	detail func() any
 	sig    string
 }
 
 // Begin registers an execution with the watchdog.
 func (r *Run) Begin(sig string, detail func() any) *Guard {
-	g := &Guard{r: r, t: time.Now(), detail: detail, sig: sig}
+	g := &Guard{r: r, detail: detail, sig: sig}
+	g.Touch()
 	r.guards.Store(g, struct{}{})
 	r.watchOnce.Do(func() { go r.watch() })
 	return g
 }
+
+// Touch restarts the guard's clock (one guard reused for a stream of short executions).
+func (g *Guard) Touch() { g.t.Store(time.Now().UnixNano()) }
 
 // End unregisters the execution.
 func (g *Guard) End() { g.r.guards.Delete(g) }
@@ -349,7 +359,7 @@ func (r *Run) watch() {
 		var stuck *Guard
 		r.guards.Range(func(k, _ any) bool {
 			g := k.(*Guard)
-			if time.Since(g.t) > limit {
+			if time.Since(time.Unix(0, g.t.Load())) > limit {
 				stuck = g
 				return false
 			}
@@ -397,6 +407,9 @@ func (r *Run) Finish() {
 	}
 	sort.Strings(kf)
 	cov["known_findings_matched"] = kf
+	if len(r.bySig) > 0 {
+		cov["violations_by_signature"] = r.bySig
+	}
 	if r.flaky > 0 {
 		cov["flaky"] = r.flaky
 	}
